@@ -82,3 +82,12 @@ Example C05_filter_example :
   is_finite 53 1024 (clip_value n p v) = true /\ is_finite 53 1024 (hs_errb n p) = true /\
   is_finite 53 1024 (clip_errb1 n p v) = true /\ clip_filter n p v = 1%Z.
 Proof. vm_compute. repeat split. Qed.
+
+(* the same without any hypothesis on computed values: for ALL finite n, p, v whose components are at most 2^300 in absolute value
+   (vle2 a e: every component is finite and |component| <= 2^e) nothing overflows, and a conclusive answer has the exact sign *)
+From MV Require Import Proofs.FilterTotal.
+Theorem C05_filter_sound_for_all_inputs_of_sane_magnitude : forall n p v : vec,
+  vle2 n 300 -> vle2 p 300 -> vle2 v 300 ->
+  (clip_filter n p v = 1%Z -> (0 < exactE n p v)%R) /\ (clip_filter n p v = (-1)%Z -> (exactE n p v < 0)%R).
+Proof. exact clip_filter_sound_bounded. Qed.
+Print Assumptions C05_filter_sound_for_all_inputs_of_sane_magnitude.
